@@ -63,6 +63,7 @@ func runC18(p *core.Prog, r *core.Result) {
 	r.Decided = []string{
 		"R18.1 typestate of one evaluation on every path: up-to-date | evaluating·succeeded | evaluating·failed | failed | (no event only on the return taken because a dependency failed); the body runs only between evaluating and the terminal event; succeeded never on an error edge",
 		"R18.2 target events are emitted only by (*runTarget).Evaluate; run-done exactly once, after the runner returned, with the error that Run returns",
+		"R18.4 whenever a lineWriter method hands its buffered partial line to Events.Print it resets the buffer before returning (no byte is delivered twice)",
 		"R18.3 the target's line writer is flushed by a defer registered first thing in (*function).evaluate; Flush and newThread have no other callers",
 	}
 	r.NotDecided = []string{"line reassembly for all chunkings (lineWriter.Write is a small behavioural function)", "interleaving of events of different targets", "exactly-once delivery as observed by a renderer"}
@@ -442,7 +443,38 @@ func runC18(p *core.Prog, r *core.Result) {
 	flush := need(p, r, "R18.3", "", "lineWriter", "Flush")
 	newThread := need(p, r, "R18.3", "", "function", "newThread")
 	if eval != nil && flush != nil && newThread != nil {
-		okDefer := false
+		// the writers the body's thread writes to: the lineWriter fields handed to SetStdio in newThread
+		writers := map[string]bool{}
+		for _, c := range core.Calls(newThread) {
+			cal := core.Callee(c)
+			if cal == nil || cal.Name() != "SetStdio" {
+				continue
+			}
+			for _, a := range c.Common().Args[1:] {
+				for {
+					if mi, ok := a.(*ssa.MakeInterface); ok {
+						a = mi.X
+						continue
+					}
+					if ci, ok := a.(*ssa.ChangeInterface); ok {
+						a = ci.X
+						continue
+					}
+					break
+				}
+				if ld, ok := a.(*ssa.UnOp); ok && ld.Op == token.MUL {
+					if fa, ok := ld.X.(*ssa.FieldAddr); ok {
+						if owner, name := core.FieldOf(fa); owner != nil && owner.Obj().Name() == "function" {
+							writers[name] = true
+							continue
+						}
+					}
+				}
+				r.Unk("R18.3", "dawn.(*function).newThread#stdio-writer", p.InstrPos(c.(ssa.Instruction)), "a stream of the body's thread is not a field of the target: cannot tell whether it is flushed")
+			}
+		}
+		r.Floor("R18.3", len(writers), 1, "writers handed to the body's thread")
+		flushed := map[string]bool{}
 		for _, c := range core.CallsTo(eval, flush) {
 			d, isDefer := c.(*ssa.Defer)
 			if !isDefer || d.Block() != eval.Blocks[0] {
@@ -457,11 +489,25 @@ func runC18(p *core.Prog, r *core.Result) {
 					first = false
 				}
 			}
-			if first && core.LoadOfField(d.Call.Args[0], pkgRoot, "function", "out") {
-				okDefer = true
+			if !first {
+				continue
+			}
+			if ld, ok := d.Call.Args[0].(*ssa.UnOp); ok && ld.Op == token.MUL {
+				if fa, ok := ld.X.(*ssa.FieldAddr); ok {
+					if owner, name := core.FieldOf(fa); owner != nil && owner.Obj().Name() == "function" {
+						flushed[name] = true
+					}
+				}
 			}
 		}
-		r.Check(okDefer, "R18.3", "dawn.(*function).evaluate#flush-deferred", p.Pos(eval.Pos()), "Flush of the target's writer is deferred before anything else runs: a trailing partial line is delivered on every exit, including panics", "the target's writer is not flushed by a defer registered at the start of evaluate: output after the last newline is lost on some exits")
+		wnames := make([]string, 0, len(writers))
+		for w := range writers {
+			wnames = append(wnames, w)
+		}
+		sort.Strings(wnames)
+		for _, w := range wnames {
+			r.Check(flushed[w], "R18.3", "dawn.(*function).evaluate#flush-deferred:"+w, p.Pos(eval.Pos()), "Flush of the writer function."+w+" (a stream of the body's thread) is deferred before anything else runs: a trailing partial line is delivered on every exit, including panics", "the writer function."+w+" receives output of the body's thread but is not flushed by a defer registered at the start of evaluate: output after the last newline is lost")
+		}
 		for _, c := range p.StaticCallers(flush) {
 			if c.Parent() != eval {
 				r.Bad("R18.3", "dawn.(*lineWriter).Flush#caller:"+fname(c.Parent()), p.InstrPos(c.(ssa.Instruction)), "Flush is called outside (*function).evaluate")
@@ -483,4 +529,51 @@ func runC18(p *core.Prog, r *core.Result) {
 			}
 		}
 	}
+
+	// ---- R18.4 a delivered line leaves the buffer
+	checkLineBufferReset(p, r)
+}
+
+// checkLineBufferReset implements R18.4: in the methods of lineWriter, whenever the buffered partial line is
+// handed to Events.Print, the buffer is reset before the method returns. Otherwise the same bytes are delivered
+// again, glued in front of the next write (the writer outlives one evaluation: a Project can run a target again).
+func checkLineBufferReset(p *core.Prog, r *core.Result) {
+	isLineOp := func(in ssa.Instruction, name string) bool {
+		c, ok := in.(ssa.CallInstruction)
+		if !ok || !core.IsMethod(c, "strings", "Builder", name) || len(c.Common().Args) == 0 {
+			return false
+		}
+		return core.IsField(c.Common().Args[0], pkgRoot, "lineWriter", "line")
+	}
+	n := 0
+	for _, fn := range p.ModuleFuncs() {
+		if fn.Pkg == nil || fn.Pkg.Pkg.Path() != pkgRoot || fn.Signature.Recv() == nil || !strings.Contains(fn.Signature.Recv().Type().String(), "lineWriter") {
+			continue
+		}
+		k := 0
+		for _, c := range core.Calls(fn) {
+			if !isInvoke(c, "Events", "Print") {
+				continue
+			}
+			line := c.Common().Args[len(c.Common().Args)-1]
+			buffered := core.DependsOn(line, core.SliceOpts{}, func(v ssa.Value) bool {
+				in, ok := v.(ssa.Instruction)
+				return ok && isLineOp(in, "String")
+			})
+			if !buffered {
+				continue
+			}
+			n++
+			k++
+			construct := fmt.Sprintf("%s#delivers-buffer-%d", fname(fn), k)
+			leak := false
+			for _, ret := range core.ReturnsOf(fn) {
+				if core.ReachesAvoiding(c.(ssa.Instruction), ret, func(in ssa.Instruction) bool { return isLineOp(in, "Reset") }) {
+					leak = true
+				}
+			}
+			r.Check(!leak, "R18.4", construct, p.InstrPos(c.(ssa.Instruction)), "the buffered line is reset after it has been delivered, on every path to the return", "the buffered line is delivered but can stay in the buffer when the method returns: the next write to this writer (the same target evaluated again on the loaded project) delivers these bytes a second time, glued in front of its first line")
+		}
+	}
+	r.Floor("R18.4", n, 1, "deliveries of the buffered line")
 }
